@@ -341,6 +341,8 @@ class CallMixin:
             if not getattr(v, "is_set", False):
                 raise Unsupported("added(): argument is not a modelled set")
             return VList(v.elem, seq=v.term())
+        if name == "as_items":
+            return args[0]
         if name == "dict_put":
             return VDict(z3.Store(Dict.pack(args[0]), coerce(args[1], Str).t, to_val(args[2])))
         if name == "same_members":
@@ -1826,6 +1828,11 @@ class CallMixin:
             return VDict(d.t)
         if name == "clear" and not args and not kwargs:
             d.t = EmptyDict  # in-place: every key becomes absent
+            return VNone()
+        if name == "update" and len(args) == 1 and not kwargs and isinstance(args[0], VRec) and args[0].ty.as_dict \
+                and not getattr(args[0].ty, "optkeys", False):
+            for k, x in args[0].fields.items():  # d.update({"k": v, ...}) with literal keys: exact
+                d.t = z3.Store(d.t, z3.StringVal(k), to_val(x))
             return VNone()
         if name == "update" and len(args) == 1 and not kwargs and isinstance(args[0], (VDict, VAny)):
             # d.update(other) with a symbolic `other`: TypeError/ValueError unless it is a mapping; the merged content
